@@ -309,7 +309,7 @@ def oracle_c06(r, an, info, rng):
     return out
 
 
-def sinusoid_calibration(rng, n=8):
+def sinusoid_calibration(rng, n=16):
     """ps at the sinusoid's own frequency = A^2/2 (single-bin analyses, Kaiser psll in [60,200])."""
     from speckit.analysis import SpectrumAnalyzer
     out = []
@@ -326,7 +326,11 @@ def sinusoid_calibration(rng, n=8):
         t = np.arange(N) / fs
         x = A * np.cos(2 * np.pi * f0 * t + ph)
         an = SpectrumAnalyzer(x, fs, win="kaiser", psll=psll, order=rng.choice([-1, 0]))
-        r = an.compute_single_bin(f0, L=L)
+        if rng.random() < 0.5:
+            r = an.compute_single_bin(f0, L=L)
+        else:
+            # request by resolution with non-integer fs/fres (L is rounded to the same value)
+            r = an.compute_single_bin(f0, fres=fs / (L + rng.choice([0.3, -0.4, 0.45])))
         err = abs(float(r.ps[0]) / (A * A / 2) - 1)
         worst = max(worst, err)
         if err > 3 * 10 ** (-psll / 20) + 1e-9:
